@@ -718,6 +718,12 @@ def search_without_model(rep, tier, seed):
             rep.violate("dir:.rad50 " + render_chunks(ch), "'.rad50' result contradicts C15 (python restatement of the Spec)",
                         {"files": [["t.mac", ".rad50 " + render_chunks(ch) + "\n"]], "chunks": [[k, v] for k, v in ch]}, impl=o, replay_kind="dir")
             return
+    for ch, src in escape_cases(rng, 300):
+        o = observe(impl.assemble([("t.mac", ".rad50 " + src + "\n")]))
+        if not py_holds_dir(ch, o):
+            rep.violate("dir:.rad50 " + src, "'.rad50' on characters spelled through string escapes contradicts C15 (python restatement of the Spec)",
+                        {"files": [["t.mac", ".rad50 " + src + "\n"]], "chunks": [[k, v] for k, v in ch]}, impl=o, replay_kind="dir")
+            return
     for t in gen_lit_cases(rng, 800) + [chr(c) + "\n" for c in related_to_alphabet()]:
         o, consumed = lit_token(t)
         if not py_holds_littok(t, o, consumed):
